@@ -210,10 +210,18 @@ func checkC07(p *Prog, rp *Report) {
 			scripts = append(scripts, []string{a, b})
 			for _, c := range lineKinds {
 				scripts = append(scripts, []string{a, b, c})
+				if rp.Tier == "thorough" { // every sequence of four line kinds as well
+					for _, d := range lineKinds {
+						scripts = append(scripts, []string{a, b, c, d})
+					}
+				}
 			}
 		}
 	}
 	scripts = append(scripts, []string{}, []string{"A: 1\n", " x\n", " y\n", " .\n", "B: 2\n", "\n", "\n", "C: 3\n"})
+	// lines far longer than any reader buffer
+	long := strings.Repeat("lib-x (>= 1.0), ", 600)
+	scripts = append(scripts, []string{"Package: p\n", "Depends: " + long + "\n", " " + long + "\n", "Section: s\n", "\n", "Package: q\n"})
 	runScript := func(script []string) {
 		nscripts++
 		m := readerMachine(p, script)
@@ -293,7 +301,7 @@ func checkC07(p *Prog, rp *Report) {
 		lines.undecided("control.ParagraphReader.Next", pos, undec)
 		inv.undecided("control.ParagraphReader.Next", pos, undec)
 	default:
-		lines.check(mismatch == "", "control.ParagraphReader.Next", pos, fmt.Sprintf("%d scripts (every sequence of up to 3 of 19 line kinds, with and without the final newline), all calls of Next until end of input agree with the reference", nscripts), mismatch)
+		lines.check(mismatch == "", "control.ParagraphReader.Next", pos, fmt.Sprintf("%d scripts (every sequence of up to %d of 19 line kinds, with and without the final newline), all calls of Next until end of input agree with the reference", nscripts, map[bool]int{false: 3, true: 4}[rp.Tier == "thorough"]), mismatch)
 		inv.check(invProblem == "", "control.ParagraphReader.Next", pos, fmt.Sprintf("invariant holds for every paragraph returned on %d scripts, malformed ones included", nscripts), invProblem)
 	}
 
